@@ -92,13 +92,14 @@ WellFormed(toks, i, st) ==      \* st: what is expected next: "S", "P", "O", "X"
                         \/ t = "." /\ WellFormed(toks, i + 1, "S")
 
 \* layout: gap[i] stands between token i and token i+1 (gap[Len] after the last token)
-Gaps == {"sp", "sp2", "tab", "nl", "nlsp", "cmt", "cline"}
+Gaps == {"sp", "sp2", "tab", "nl", "nlsp", "cmt", "tcmt", "cline"}
 HeaderLines == << Chars("@prefix ex: <http://ex.org/> ."), Chars("@prefix xsd: <http://www.w3.org/2001/XMLSchema#> ."),
                   Chars("@prefix rdf: <http://www.w3.org/1999/02/22-rdf-syntax-ns#> ."),
                   Chars("@prefix geo: <http://www.w3.org/2003/01/geo/wgs84_pos#> ."), Chars("@prefix base: <http://bb.org/> ."),
                   Chars("@prefix prefixes: <http://pp.org/> ."), Chars("@prefix rel: <http://r.org/v1.> ."),
                   Chars("@base <http://b.org/d/> .") >>
 CommentTail == <<" ", "#", " ", "c", " ", "\"", " ", ".">>          \* trailing comment (with a quote and a dot inside)
+TabCommentTail == <<"\t", "#", " ", "c", " ", ";">>                   \* a trailing comment set off by a TAB
 CommentLine == <<"#", " ", "l", "i", "n", "e", " ", ";">>           \* a whole comment line
 \* the document as the sequence of its lines (the line reader splits on line breaks and skips blank lines)
 RECURSIVE RenderLinesR(_, _, _, _, _)
@@ -112,6 +113,7 @@ RenderLinesR(toks, gaps, i, cur, acc) ==
             [] g = "nl" -> RenderLinesR(toks, gaps, i + 1, <<>>, Append(acc, line))
             [] g = "nlsp" -> RenderLinesR(toks, gaps, i + 1, <<" ", " ">>, Append(acc, line))
             [] g = "cmt" -> RenderLinesR(toks, gaps, i + 1, <<>>, Append(acc, line \o CommentTail))
+            [] g = "tcmt" -> RenderLinesR(toks, gaps, i + 1, <<>>, Append(acc, line \o TabCommentTail))
             [] g = "cline" -> RenderLinesR(toks, gaps, i + 1, <<>>, Append(Append(acc, line), CommentLine))
 RenderLines(toks, gaps) == RenderLinesR(toks, gaps, 1, <<>>, <<>>)
 
